@@ -139,9 +139,63 @@ PROPS["C16"] = {
     },
 }
 
+PROPS["C14"] = {
+    "hook": True,
+    "functions": [
+        "barter::engine::state::connectivity::ConnectivityStates::{update_from_market_event, update_from_account_event, update_from_market_reconnecting, update_from_account_reconnecting}",
+        "barter::engine::state::connectivity::ConnectivityStates::{connectivity, connectivity_mut, connectivity_index, connectivity_index_mut, exchange_states}",
+        "barter::engine::state::connectivity::ConnectivityState::all_healthy",
+    ],
+    "bounds": {
+        "quick": "one inductive step from an ARBITRARY invariant-satisfying state over 3 exchanges (6 symbolic health flags), symbolic operation target; "
+                 "plus the 2-step drop-then-recover sequence; unwind 6",
+        "thorough": "same as quick",
+    },
+    "outside": ["more than 3 exchanges (the step is uniform in the number of exchanges; capacity of the stand-in container is 4)",
+                "Engine::update_from_{account,market}_stream invoking Strategy::on_disconnect (engine-level; see C03/C10 notes)"],
+    "assumptions": ["pre-state invariant: global == Healthy <=> all links healthy (established by generate_empty_indexed_connectivity_states: all reconnecting)"],
+    "tiers": {
+        "quick": {"filters": ["c14_q_", "c14_twin_"], "jobs": 6, "harness_timeout_s": 600, "total_timeout_s": 1500},
+        "thorough": {"filters": ["c14_"], "jobs": 6, "harness_timeout_s": 3000, "total_timeout_s": 7000},
+    },
+}
+
+PROPS["C01"] = {
+    "hook": True,
+    "functions": [
+        "barter::engine::state::order::Orders::{update_from_order_snapshot, update_from_cancel_response, record_in_flight_open, record_in_flight_cancel} "
+        "(instantiation Orders<ExchangeIndex, InstrumentIndex>, AssetKey = AssetIndex)",
+        "barter_execution::order::Order::{to_active, from(&OrderRequestOpen)}",
+        "barter_execution::order::state::{Open::quantity_remaining, ActiveOrderState::open_meta}",
+    ],
+    "bounds": {
+        "quick": "60 cells = pre-state kind {untracked, OpenInFlight, Open, CancelInFlight(None), CancelInFlight(Some)} x input kind {open request, cancel "
+                 "request, snapshot of each of the 8 OrderState shapes, cancel Ok, cancel Err}; per cell symbolic: both exchange timestamps (0..3 s), both "
+                 "filled quantities (0..2 of quantity 2), bystander payload; bystander order of concrete kind (rotated over cells) before or after the "
+                 "subject in the map; unwind 26",
+        "thorough": "quick + every cell with every bystander kind (240 more harnesses)",
+    },
+    "outside": ["EngineState::update_from_account routing of OrderSnapshot / OrderCancelled / Snapshot to the instrument's Orders (engine-level)",
+                "more than two concurrent order ids per instrument (reports only address one id; the bystander stands for all others)",
+                "cells where the property text does not pin the outcome exactly (failed cancel without a remembered open state; duplicate cancel-in-flight "
+                "recordings): only the generic clauses are asserted there"],
+    "assumptions": ["a tracked Open / CancelInFlight(Some) pre-state has something left to fill (otherwise it would already have stopped being tracked)"],
+    "tiers": {
+        "quick": {"filters": ["c01_q_", "c01_twin_"], "jobs": 16, "harness_timeout_s": 900, "total_timeout_s": 2400, "mem_gb": 8},
+        "thorough": {"filters": ["c01_"], "jobs": 14, "harness_timeout_s": 1800, "total_timeout_s": 10000, "mem_gb": 6},
+    },
+}
+
 
 # ---- MANIFEST texts -------------------------------------------------------------------------------------
 LEVEL = {
+ "C01": ("One step of the real Orders state machine per (pre-state kind x input kind) cell - 60 cells - with symbolic timestamps, filled quantities and "
+         "bystander payload, compared with a reference lifecycle written from the property text, plus monotone exchange timestamps, no invented data and "
+         "bystander-unchanged. Induction over cells covers all interleavings, duplicates and stale reports for any number of order ids.",
+         "Needs the container hook (FnvHashMap replaced by an inline association list); engine-level routing outside."),
+ "C14": ("One inductive step of the four real ConnectivityStates update methods from an arbitrary invariant-satisfying state over three exchanges: exactly "
+         "the addressed link changes as specified and global health equals the conjunction of all links again; induction covers event sequences of any length.",
+         "Needs the container hook (IndexMap replaced by an inline association list); on_disconnect strategy invocation is outside."),
  "C02": ("One inductive step of the real PositionManager::update_from_trade from an arbitrary open position (or none) with an arbitrary fill, "
          "asserting side/size = sign/magnitude of the net quantity, closed-record iff the net quantity reaches or crosses zero, the exact "
          "cash-flow identity of realised PnL (wealth function), fee additivity and fill-id recording. Induction covers fill sequences of any "
